@@ -51,33 +51,66 @@ def _split(w):
 
 
 def _collapse(w):
+    """The reference with the empty pieces of its path (and a leading "." shield) taken out."""
     s, a, p, rest = _split(w)
-    while "//" in p:
-        p = p.replace("//", "/")
-    # a leading "." shield in front of a collapsed empty segment
-    for pre in ("/./", "./"):
-        if p.startswith(pre):
-            p = p[len(pre) - 1:] if pre == "/./" else p[2:]
-    return (s, a, p.rstrip("/") or p[:1], rest)
+    pieces = [x for x in p.split("/") if x != ""]
+    if pieces and pieces[0] == ".":
+        pieces = pieces[1:]     # in a resolved text a first "." segment can only be a shield
+    return (s, a, tuple(pieces), rest)
+
+
+def _merged(base, ref):
+    """RFC 3986 5.2.3 on the texts."""
+    _, ba, bp, _ = _split(base)
+    _, _, rp, _ = _split(ref)
+    if ba is not None and bp == "":
+        return "/" + rp
+    return bp[:bp.rfind("/") + 1] + rp
 
 
 @classifier("resolve-merge-loses-empty-segments")
 def _merge_empty(case, fail):
+    """Identified by: the reference takes the merge branch of 5.2.2 (no scheme, no authority, non-empty
+    relative path), the merged path of 5.2.3 holds an empty segment ("//"), and what was observed is one
+    of the expected texts with empty segments of its path missing (nothing else differs)."""
     if case.get("k") == "resolve":
-        ref = _t(case["ref"])
+        ref, base = _t(case["ref"]), _t(case["base"])
     elif (case.get("k") == "edit" or case.get("ev") == "edit") and case.get("op") == "resolve":
-        ref = _t(case["pre"])
+        ref, base = _t(case["pre"]), _t(case["arg"])
     else:
         return False
     s, a, p, _ = _split(ref)
     if s is not None or a is not None or p == "" or p.startswith("/"):
         return False            # not the merge branch
-    if "expected_one_of" not in fail:
-        if fail.get("what") in ("all_entry_points_agree", "families_agree"):
-            return False
+    if "expected_one_of" not in fail or "//" not in _merged(base, ref):
         return False
     obs = fail["observed"]
-    return any(_collapse(obs) == _collapse(e) and len(obs) < len(e) for e in fail["expected_one_of"])
+    if any(_collapse(obs) == _collapse(e) and len(obs) < len(e) for e in fail["expected_one_of"]):
+        return True
+    # ... or it is what 5.2.4 gives when an empty segment cannot be appended to an empty buffer (a ".."
+    # that should have removed that empty segment then removes its neighbour, or is kept)
+    so, ao, po, ro = _split(obs)
+    if not any((so, ao, ro) == (lambda x: (x[0], x[1], x[3]))(_split(e)) for e in fail["expected_one_of"]):
+        return False
+    m = _merged(base, ref)
+    absolute = m.startswith("/") or _split(base)[1] is not None
+    stack = []
+    segs = m.split("/")
+    for seg in (segs[1:] if m.startswith("/") else segs):
+        if seg == ".":
+            continue
+        if seg == "":
+            if stack:
+                stack.append("")    # an empty segment is only lost where the buffer is empty
+            continue
+        if seg == "..":
+            if stack and stack[-1] != "..":
+                stack.pop()
+            elif not absolute:
+                stack.append("..")
+        else:
+            stack.append(seg)
+    return _collapse(obs)[2] == tuple(x for x in stack if x != "")
 
 
 @classifier("pct-str-view-panics-on-ill-formed-utf8")
